@@ -288,7 +288,11 @@ def run(scn):
                 worst, wname = d, "dt"
             compared += 1
             if worst > min(CAP, TOL * GROWTH ** (compared - 1)):
-                V.append(Violation("unit-dependent", f"update {a['stage']}{a['step']}: dimensionless {wname} differs by {worst:.3g} (relative) between {where['units_a']} and {where['units_b']}", quantity=wname, step=a["step"], **where))
+                def bounces(e):
+                    return sum(1 for i in range(1, len(e)) if e[i] > e[i - 1])
+
+                erratic = bool(where["screening"] and a["n_screen"] != b["n_screen"] and min(a["n_screen"], b["n_screen"]) >= 60 and min(bounces(a["screen_errs"]), bounces(b["screen_errs"])) >= 10)
+                V.append(Violation("unit-dependent", f"update {a['stage']}{a['step']}: dimensionless {wname} differs by {worst:.3g} (relative) between {where['units_a']} and {where['units_b']}" + (f" (screening took {a['n_screen']} vs {b['n_screen']} erratic iterations)" if erratic else ""), quantity=wname, step=a["step"], erratic_screening=erratic, **where))
                 break
         if base.expected_library_error(h1) != base.expected_library_error(h2):
             h1.probe("twin_convergence_diverged")
